@@ -50,7 +50,11 @@ def run(chk):
                                                                           for c in ast.walk(loops[0])), "R1", f"{E}:export_record | every member exported", ex.loc(rec[0]), "")
     arr = [n for n in ast.walk(ex.node) if isinstance(n, ast.Assign) and src(n.targets[0]) == "export_array"]
     chk.check(len(arr) == 1 and src(arr[0].value) == "export_record", "R1", f"{E}:export_eds | arrays exported like records", ex.loc(), "")
-    ev = [n for n in ast.walk(ex.node) if isinstance(n, ast.FunctionDef) and n.name == "export_variable"][0]
+    evs = [n for n in ast.walk(ex.node) if isinstance(n, ast.FunctionDef) and n.name == "export_variable"]
+    if not evs:
+        from ..loader import AnalysisError
+        raise AnalysisError("C14.R1", "export_eds.export_variable not found")
+    ev = evs[0]
     # values: data type, pdo mapping, limits are written in a form the importer parses
     for c in [x for x in ast.walk(ev) if isinstance(x, ast.Call) and dotted(x.func) == "eds.set" and len(x.args) == 3]:
         key = folder.try_fold(c.args[1], sc, None)
@@ -312,7 +316,10 @@ def _revert_text(folder, rv, code, val):
                             except Unfoldable:
                                 return None
                             spec = "".join(p.value for p in part.format_spec.values if isinstance(p, ast.Constant)) if part.format_spec is not None else ""
-                            out += format(x, spec)
+                            try:
+                                out += format(x, spec)
+                            except (ValueError, TypeError):
+                                return None
                     return out
                 if isinstance(v, ast.Call) and dotted(v.func) in ("hex", "str") and len(v.args) == 1:
                     try:
